@@ -22,6 +22,8 @@ int  vrt_cv_wait(void *cv, void *m, int64_t deadline_ns);
 void vrt_cv_notify(void *cv, int all);
 
 int64_t vrt_now_ns(void);
+// number of times the virtual clock was advanced while some thread was still runnable ("timer lands first" deviations)
+int vrt_early_clock_advances(void);
 
 int  vrt_thread_create(void (*fn)(void *), void *arg);
 void vrt_thread_join(int tid);
@@ -37,6 +39,11 @@ void vrt_atomic_notify(const volatile void *addr, int all);
 void vrt_op(const void *obj, const char *what);
 // block until pred(arg) becomes true (evaluated by the scheduler); acts as vrt_op(obj) when it proceeds
 void vrt_block_on(int (*pred)(void *), void *arg, const void *obj, const char *what);
+
+// shim-internal critical sections: between begin and end the calling thread's plain accesses are neither scheduling
+// points nor subject to the race oracle (the section is ordered by the vrt_op that precedes it)
+void vrt_atomic_begin(void);
+void vrt_atomic_end(void);
 
 // ---- harness side -------------------------------------------------------------------------
 // disabled until some other thread has executed a visible operation (use inside polling loops)
